@@ -35,7 +35,7 @@ func init() { drivers["c13"] = driveC13 }
 type c13scn struct {
 	Seed   int64  `json:"seed"`
 	Kind   string `json:"kind"`   // idle | handshake | play | record | stuck
-	Proto  string `json:"proto"`  // tcp | udp
+	Proto  string `json:"proto"`  // tcp | udp | mcast (play scenarios, plain)
 	Tunnel string `json:"tunnel"` // "" | http | ws
 	TLS    bool   `json:"tls"`
 	Closer string `json:"closer"` // server | stream | client | teardown
@@ -81,6 +81,9 @@ func driveC13(a *args, s *vt.Sink) error {
 		sc.Closer = []string{"server", "server", "stream", "client", "teardown"}[rng.Intn(5)]
 		if sc.Kind == "record" && sc.Closer == "stream" {
 			sc.Closer = "server"
+		}
+		if sc.Kind == "play" && sc.Proto == "udp" && !sc.TLS && rng.Intn(2) == 0 {
+			sc.Proto = "mcast" // readers share the stream's multicast writer
 		}
 		sc.Slow = rng.Intn(2) == 0
 		sc.N = 1 + rng.Intn(3)
@@ -148,6 +151,7 @@ func c13run(sc *c13scn, s *vt.Sink) (err error) {
 	if sc.TLS {
 		cfg.TLS = bed.SelfSignedTLS()
 	}
+	cfg.Multicast = sc.Proto == "mcast"
 	if sc.Kind == "record" && sc.Proto == "udp" {
 		// datagrams reach the server slightly reordered, so that one datagram can release
 		// several packets (and callbacks) from the reorder buffer
